@@ -141,6 +141,9 @@ def scenario(ctx):
         use_random = t.flag(1, 3)
         if use_random:
             extra = dict(random_state=t.draw(1000))
+            if mpi and t.flag():
+                extra['per_rank_rng'] = True
+                ctx.hit('per_rank_generators')
             desc = ('random', extra['random_state'])
         else:
             cid = t.draw(K)
